@@ -48,7 +48,7 @@ def run(ctx):
     # F7: statement-subset programs moved into the surroundings the machine models (macro body, slot filler, named
     # block of a translation, on-error element, repeated element, template-namespace element)
     per = 8 if quick else 60
-    f7 = [F.in_context(p, how) for how in F.CONTEXTS for p in rnd.sample(f1, per)]
+    f7 = F.in_contexts(f1, per, rnd)
     agg = run_family("C01F7", f7, NAMES + ["z", "macroname"], dev=dev, invariants=INVS, properties=[], perms=perms[:2], timeout=900)
     ctx.add_family(agg)
     f5 = F.c01_extras(ctx.tier, rnd)
